@@ -189,7 +189,7 @@ inline void HllUtil<A>::checkNumStdDev(uint8_t numStdDev) {
 
 template<typename A>
 inline uint32_t HllUtil<A>::pair(uint32_t slotNo, uint8_t value) {
-  return (value << hll_constants::KEY_BITS_26) | (slotNo & hll_constants::KEY_MASK_26);
+  return (static_cast<uint32_t>(value) << hll_constants::KEY_BITS_26) | (slotNo & hll_constants::KEY_MASK_26);
 }
 
 template<typename A>
